@@ -208,6 +208,17 @@ theorem critical_steps_locked :
     has "sequence_matcher" "seq->add_last(this)" = true ∧
     has "mock_func" "auto i = find(e.active, param_value)" = true := by decide
 
+/-- **what is read without the lock is atomic**: the state queries a user may call on a handle while other threads use the
+    library and that do not take the lock (Gen/LockScopes.lean: `lockFreeReads`, regenerated from the source — the queries
+    marked `override`, minus those that lock or merely forward) read only data members declared `atomic<…>`. -/
+theorem lock_free_reads_atomic :
+    Tromp.Gen.lockFreeReads.all (fun r => ["atomic<bool>", "atomic<size_t>", "atomic<unsigned>"].contains r.2.2.2) = true := by decide
+
+/-- … and there are such queries (the destruction requirement's), so the statement is not about an empty table. -/
+theorem lock_free_reads_nonempty :
+    Tromp.Gen.lockFreeReads.map (fun r => (r.1, r.2.2.1)) =
+      [("lifetime_monitor::is_satisfied", "died"), ("lifetime_monitor::is_saturated", "died")] := by decide
+
 /-! ### non-vacuity -/
 example : runL none [.acq 1, .acc 1 7 true, .rel 1, .acq 2, .acc 2 7 false, .rel 2] = some none := by decide
 example : runL none [.acq 1, .acq 2] = none := by decide
